@@ -9,6 +9,10 @@ public step functions `tauLeap` / `firstReaction` with the recorded variates.
 Direct oracle (no Lean): min / max of the real raw and gridded arrays against the declared limits (lower
 limit 0 for EVERY state that declares none, a range-style entry's limit for each of its states); a rejected
 step returns the old state and time.
+
+History and input form: `path_within_limits` is about one path as a pure function of (limits, configuration, x0, t0, draws);
+the sessions of stoch_common.run_session probe on the real code that nothing else enters (earlier calls and configuration,
+the form of x0 / t0 / the time argument, other instances), and every raw and gridded array of every call is judged.
 """
 import random
 
@@ -22,16 +26,30 @@ LEAN = {"module": "Pygom.Props.C11",
         "required": ["Pygom.C11.checkJump_reject_unchanged", "Pygom.C11.checkJump_accept_within",
                      "Pygom.C11.path_within_limits", "Pygom.C11.limits_default", "Pygom.C11.stateLims_aligned",
                      "Pygom.C11.legacy_limits_counterexample"]}
-BUDGET = {"quick": {"models": 120}, "thorough": {"models": 1000, "max_steps": 2000, "steps": [40, 150, 600, 1500]}}
+BUDGET = {"quick": {"models": 120, "sessions": 140},
+          "thorough": {"models": 1000, "sessions": 800, "max_steps": 2000, "steps": [40, 150, 600, 1500], "session_steps": [40, 150, 600]}}
 RULE = ("bounded-rate event models (shared generator, incl. range-style state names) with small integer populations (0-12), "
         "lower / upper / two-sided / absent / default limits per declared state, magnitudes 1-3, x {exact, adaptive tau with "
-        "epsilon in {0.01..0.3}, large fixed tau (2-10 expected events per step)} x 2 paths, scalar horizon or list/tuple/array grid; "
+        "epsilon in {0.01..0.3}, large fixed tau (2-10 expected events per step)} x 2 paths, scalar horizon (float, int, numpy scalar, "
+        "one-element list / tuple) or list / tuple / array grid of float or int dtype (also starting after t0, extending past extinction); "
+        "the initial state handed over as int / int32 / float64 ndarray, list or tuple of ints or floats; plus SESSIONS on one instance "
+        "(3-5 calls, exact and tau-leap, raw and gridded, pre_tau / epsilon left over, initial values re-assigned in another form or "
+        "with other values inside the limits, parameters changed and restored, a deep copy of the configured instance taking over, a sibling instance (same or another definition and limits) simulated in between, first call repeated, last call "
+        "repeated on a fresh instance, every returned array kept and compared again at the end, caller's arrays unchanged); "
+        "side effects the pure model excludes but the property does not state (caller's objects or model.initial_state written to, a "
+        "repeated call or a fresh instance not reproducing a call) are tags and broken correspondence, never violations; "
         "a case is non-trivial when some path has >= 5 accepted steps; rejected tau-leaps, accepted retries and rejected "
         "first-reaction steps are counted in the tags")
 ASSUMPTIONS = ["the initial state is within the declared limits (hypothesis of path_within_limits)",
                "gridded tau-leap rows are numpy's linear interpolation of raw states (convex combinations), checked by the direct oracle only",
                "rates stay non-negative: a state without a lower limit does not occur in any rate (generator)"]
 TRUSTED = ["harness generator and tracer (numpy.random / evaluator / _jump wrappers)", "Lean driver JSON codec"]
+
+
+def _forms(r, base, sim):
+    nS = len(base["x0"])
+    sim["x0_form"] = r.choice([f for f in SC.X0_FORMS if f != "scalar" or nS == 1])
+    sim["t0_form"] = r.choice(["np_f64"] * 6 + ["np_i64", "np_i64", "np_f32", "np_f32"])
 
 
 def make_cases(rng, tier, budget):
@@ -47,108 +65,131 @@ def make_cases(rng, tier, budget):
             if mode == "tau_adaptive" and c["sim"]["epsilon"] is None and r.random() < 0.5:
                 c["sim"]["epsilon"] = r.choice([0.1, 0.3])
             if r.random() < 0.4:
-                n = r.randint(2, 8)
-                t0, T = c["sim"]["t0"], c["sim"]["T"]
-                c["sim"]["grid"] = [t0 + (T - t0) * k / (n - 1) for k in range(n)]
-                c["sim"]["grid_kind"] = r.choice(["list", "tuple", "array"])
+                c["sim"]["time"] = SC.gen_grid_time(r, c["sim"]["t0"], c["sim"]["T"], past=(1, 1, 1, 2))
+            else:
+                c["sim"]["time"] = SC.gen_scalar_time(r, c["sim"]["T"])
+            c["sim"]["T"] = c["sim"]["time"]["values"][-1]
+            _forms(r, base, c["sim"])
             c["max_steps"] = budget.get("max_steps", SC.MAX_STEPS)
             cases.append(c)
+    n = 0
+    while n < budget.get("sessions", 0):
+        r = random.Random(rng.getrandbits(64))
+        base = SC.gen_sim_case(r, limits=True, max_x0=12)
+        sib = SC.gen_sim_case(r, limits=True, max_x0=12)
+        if base is None:
+            continue
+        c = dict(base)
+        c["sim"] = SC.sim_settings(r, base, r.choice(["exact", "tau_adaptive", "tau_fixed"]), big_tau=True,
+                                   steps=budget.get("session_steps", budget.get("steps")))
+        _forms(r, base, c["sim"])
+        c["session"] = SC.gen_session(r, base, c["sim"], lims=SC.declared_limits(base["spec"]), grid_share=0.4, exact_share=0.4, sibling_base=sib)
+        c["max_steps"] = budget.get("max_steps", SC.MAX_STEPS)
+        cases.append(c)
+        n += 1
     return cases
 
 
 def search_cases(rng, tier, budget):
-    return make_cases(rng, tier, {"models": budget["models"] * 3, **{k: v for k, v in budget.items() if k != "models"}})
-
-
-def time_arg(sim):
-    if sim.get("grid"):
-        g = sim["grid"]
-        return {"list": list(g), "tuple": tuple(g), "array": np.array(g, float)}[sim["grid_kind"]]
-    return sim["T"]
+    return make_cases(rng, tier, {**budget, "models": budget["models"] * 3, "sessions": budget.get("sessions", 0) * 3})
 
 
 def run_case(case):
-    spec, meta, sim = case["spec"], case["meta"], case["sim"]
+    spec, meta = case["spec"], case["meta"]
     tags, mism, viol = [], [], []
-    exact = sim["mode"] == "exact"
-    model = SC.build_model(case)
     lims = SC.declared_limits(spec)
     nS, nE = len(meta["states"]), len(meta["procs"])
     has_range = any(":" in n for n, _ in SC.declared_entries(spec))
     decl = "range_style_decl" if has_range else "plain_decl"
-    tags += ["mode:" + sim["mode"], "nS=%d" % nS, "nE=%d" % nE, decl, "grid" if sim.get("grid") else "scalar_horizon"]
+    tags += ["nS=%d" % nS, "nE=%d" % nE, decl]
     for _, (lo, hi) in lims:
         tags.append("lim:%s" % ("none" if lo is None and hi is None else "upper" if lo is None else "lower" if hi is None else "two-sided"))
     if any(tr["mag"] != ["num", "1"] for p in meta["procs"] for tr in p["transitions"]): tags.append("magnitude>1")
-    if sim.get("epsilon") is not None: tags.append("epsilon=%s" % sim["epsilon"])
-
-    lr = SC.lean_lims(spec)
-    sl = getattr(model, "_state_lims", None)
-    if sl is not None and [list(l) for l in sl] != lr["lims"]:
-        mism.append({"what": "state_lims", "detail": "python _state_lims %s lean %s (declaration %s)" % (sl, lr["lims"], spec["state"])})
-    if [list(l) for _, l in lims] != lr["lims"] and not SC.LEGACY_STATE_LIMS:
-        mism.append({"what": "state_lims:harness-vs-lean", "detail": "harness %s lean %s" % (lims, lr["lims"])})
-    x0 = np.array(case["x0"], float)
-    if SC.within(lims, x0):
-        raise AssertionError("generator produced an initial state outside the limits")
-
-    tr = SC.traced_run(model, time_arg(sim), exact, sim["np_seed"], iterations=2, max_steps=case.get("max_steps", SC.MAX_STEPS))
-    modek = sim["mode"].split("_")[0]
     where = lambda i: decl
-    post_crash = tr.error is not None and len(tr.jumps) == 2 and sim.get("grid")
-    if post_crash:
-        # every _jump call returned its raw path; the gridding of solve_stochast raised afterwards (C15's concern:
-        # `_addJumpsBetweenTime` on a path without events).  The raw paths are judged here.
-        tags.append("gridding_raised:%s" % type(tr.error).__name__)
-        tr.result = ([j["X"] for j in tr.jumps], [j["J"] for j in tr.jumps], [j["T"] for j in tr.jumps])
-        sim = dict(sim); sim["grid"] = None
-    if tr.error is not None and not post_crash and SC.unbounded_adaptive_tau(tr, sim):
-        # the recorded C04 defect (the run does not return); no recorded state left its limits unless judged below
-        states = [e[2] for e in tr.log if e[0] == "fn"]
-        if not any(SC.within(lims, s) for s in states):
-            return {"nontrivial": False, "mismatches": mism, "violations": viol, "tags": tags + ["raised:unbounded-adaptive-tau(C04 finding)"]}
-    if tr.error is not None and not post_crash:
-        # a crash: look at the states the loop was in (recorded evaluator arguments) before judging
-        states = [e[2] for e in tr.log if e[0] == "fn"]
-        bad = [SC.within(lims, s) for s in states]
-        bad = [b for b in bad if b]
-        if bad:
-            i, name, v, kind, lim = bad[0][0]
-            viol.append({"what": "state %s its declared limit during the run (then solve_stochast raised %s)" % (kind, type(tr.error).__name__),
-                         "signature": "C11:%s:%s:trace:%s" % (kind, modek, decl),
-                         "detail": "state %s (index %d) = %r, limit %s; x0=%s declaration=%s _state_lims=%s" % (name, i, v, lim, case["x0"], spec["state"], sl)})
-        else:
-            viol.append({"what": "solve_stochast raised %s: %s" % (type(tr.error).__name__, str(tr.error)[:200]),
-                         "signature": "C11:raise:%s:%s:%s" % (type(tr.error).__name__, modek, decl), "detail": "x0=%s" % case["x0"]})
-        return {"nontrivial": False, "mismatches": mism, "violations": viol, "tags": tags + ["raised"]}
+    S = {"lr": None, "accepted": 0, "rej_tau": 0, "retry_ok": 0, "rej_first": 0}
 
-    Xs, Js, Ts = tr.result
-    accepted = 0
-    n_rej_tau = n_retry_ok = n_rej_first = 0
-    for p in range(len(Xs)):
-        jr = tr.jumps[p]
-        if jr["J"].ndim == 1:
-            jr["J"] = jr["J"].reshape(0, nE)
-        its = SC.segment(tr.log[jr["log"][0]:jr["log"][1]], exact)
-        st = SC.tie_steps(model, case, jr, its, lr["lims"], mism, tags)
-        n_rej_tau += st["rejected_tau"]; n_retry_ok += st["retries_ok"]; n_rej_first += (st["stop"] == "rejected")
-        arrays = [("raw states", jr["X"])]
-        if sim.get("grid"):
-            arrays.append(("gridded states", np.array(Xs[p], float)))
-        else:
-            arrays.append(("returned states", np.array(Xs[p], float)))
-        SC.oracle_c11(lims, arrays, viol, modek, where, slack=1e-9 if (sim.get("grid") and not exact) else 0.0)
-        accepted = max(accepted, len(jr["T"]) - 1)
-        if jr["truncated"]: tags.append("truncated")
-        # rejected steps: same (x, t) afterwards, and the public step functions return the old state and time
-        check_rejections(model, its, jr, exact, sl, viol, mism, modek, lims)
-    if n_rej_tau: tags.append("tau_rejected")
-    if n_retry_ok: tags.append("retry_accepted")
-    if n_rej_first: tags.append("first_reaction_rejected")
-    tags.append("rejections=%s" % ("0" if n_rej_tau + n_rej_first == 0 else "1-5" if n_rej_tau + n_rej_first <= 5 else ">5"))
-    return {"nontrivial": accepted >= 5, "mismatches": mism, "violations": viol, "tags": tags,
-            "sample": {"spec": spec, "x0": case["x0"], "params": case["params"], "sim": sim, "accepted_steps": accepted,
-                       "rejected_tau": n_rej_tau, "retries_accepted": n_retry_ok, "first_reaction_rejected": n_rej_first}}
+    def judge(call, model):
+        sim, exact, tr = call.sim, call.exact, call.tr
+        tags.append("mode:" + sim["mode"]); tags.append("grid" if call.is_grid else "scalar_horizon")
+        if sim.get("epsilon") is not None: tags.append("epsilon=%s" % sim["epsilon"])
+        sl = getattr(model, "_state_lims", None)
+        if S["lr"] is None:
+            S["lr"] = SC.lean_lims(spec)
+            if sl is not None and [list(l) for l in sl] != S["lr"]["lims"]:
+                mism.append({"what": "state_lims", "detail": "python _state_lims %s lean %s (declaration %s)" % (sl, S["lr"]["lims"], spec["state"])})
+            if [list(l) for _, l in lims] != S["lr"]["lims"] and not SC.LEGACY_STATE_LIMS:
+                mism.append({"what": "state_lims:harness-vs-lean", "detail": "harness %s lean %s" % (lims, S["lr"]["lims"])})
+        lr = S["lr"]
+        if SC.within(lims, np.array(call.x0, float)):
+            raise AssertionError("generator produced an initial state outside the limits")
+        modek = sim["mode"].split("_")[0]
+        gridded = call.is_grid
+        post_crash = tr.error is not None and len(tr.jumps) == sim["iterations"] and gridded
+        if post_crash:
+            # every _jump call returned its raw path; the gridding of solve_stochast raised afterwards (C15's concern:
+            # `_addJumpsBetweenTime` on a path without events).  The raw paths are judged here.
+            tags.append("gridding_raised:%s" % type(tr.error).__name__)
+            tr.result = ([j["X"] for j in tr.jumps], [j["J"] for j in tr.jumps], [j["T"] for j in tr.jumps])
+            gridded = False
+        if tr.error is not None and not post_crash and SC.unbounded_adaptive_tau(tr, sim):
+            # the recorded C04 defect (the run does not return); no recorded state left its limits unless judged below
+            states = [e[2] for e in tr.log if e[0] == "fn"]
+            if not any(SC.within(lims, s) for s in states):
+                tags.append("raised:unbounded-adaptive-tau(C04 finding)")
+                return False
+        if tr.error is not None and not post_crash:
+            # a crash: look at the states the loop was in (recorded evaluator arguments) before judging
+            states = [e[2] for e in tr.log if e[0] == "fn"]
+            bad = [SC.within(lims, s) for s in states]
+            bad = [b for b in bad if b]
+            if bad:
+                i, name, v, kind, lim = bad[0][0]
+                viol.append({"what": "state %s its declared limit during the run (then solve_stochast raised %s)" % (kind, type(tr.error).__name__),
+                             "signature": "C11:%s:%s:trace:%s" % (kind, modek, decl),
+                             "detail": "state %s (index %d) = %r, limit %s; x0=%s declaration=%s _state_lims=%s" % (name, i, v, lim, call.x0, spec["state"], sl)})
+            else:
+                viol.append({"what": "solve_stochast raised %s: %s" % (type(tr.error).__name__, str(tr.error)[:200]),
+                             "signature": "C11:raise:%s:%s:%s" % (type(tr.error).__name__, modek, decl),
+                             "detail": "x0=%s (%s) time=%s op %d" % (call.x0, sim["x0_form"], call.ts, call.index)})
+            tags.append("raised")
+            return False
+        Xs, Js, Ts = tr.result
+        for p in range(len(Xs)):
+            jr = tr.jumps[p]
+            if jr["J"].ndim == 1:
+                jr["J"] = jr["J"].reshape(0, nE)
+            its = SC.segment(tr.log[jr["log"][0]:jr["log"][1]], exact)
+            try:
+                st = SC.tie_steps(model, call.case, jr, its, lr["lims"], mism, tags)
+            except (KeyError, IndexError, ValueError) as exc:
+                mism.append({"what": "trace:unparsed", "detail": "%s: %s" % (type(exc).__name__, exc)})
+                st = {"stop": None, "rejected_tau": 0, "retries_ok": 0}
+            S["rej_tau"] += st["rejected_tau"]; S["retry_ok"] += st["retries_ok"]; S["rej_first"] += (st["stop"] == "rejected")
+            arrays = [("raw states", jr["X"])]
+            arrays.append(("gridded states" if gridded else "returned states", np.array(Xs[p], float)))
+            n_before = len(viol)
+            SC.oracle_c11(lims, arrays, viol, modek, where, slack=1e-9 if (gridded and not exact) else 0.0)
+            for vv in viol[n_before:]:
+                vv["detail"] += " [call at op %d, path %d, x0 %s handed over as %s, time %s]" % (call.index, p, call.x0, sim["x0_form"], call.ts["kind"])
+            S["accepted"] = max(S["accepted"], len(jr["T"]) - 1)
+            if jr["truncated"]: tags.append("truncated")
+            # rejected steps: same (x, t) afterwards, and the public step functions return the old state and time
+            try:
+                check_rejections(model, its, jr, exact, sl, viol, mism, modek, lims)
+            except (KeyError, IndexError, ValueError) as exc:
+                mism.append({"what": "trace:unparsed", "detail": "rejections: %s: %s" % (type(exc).__name__, exc)})
+        return True
+
+    SC.run_session(case, judge, "C11", tags, mism, viol, max_steps=case.get("max_steps", SC.MAX_STEPS))
+    n_rej = S["rej_tau"] + S["rej_first"]
+    if S["rej_tau"]: tags.append("tau_rejected")
+    if S["retry_ok"]: tags.append("retry_accepted")
+    if S["rej_first"]: tags.append("first_reaction_rejected")
+    tags.append("rejections=%s" % ("0" if n_rej == 0 else "1-5" if n_rej <= 5 else ">5"))
+    return {"nontrivial": S["accepted"] >= 5, "mismatches": mism, "violations": viol, "tags": tags,
+            "sample": {"spec": spec, "x0": case["x0"], "params": case["params"], "sim": case["sim"], "session": case.get("session"),
+                       "accepted_steps": S["accepted"], "rejected_tau": S["rej_tau"], "retries_accepted": S["retry_ok"],
+                       "first_reaction_rejected": S["rej_first"]}}
 
 
 def check_rejections(model, its, jr, exact, sl, viol, mism, modek, lims=None, max_replays=6):
